@@ -574,6 +574,39 @@ func (r *rig) do(h *hctl, o hop) (hres, bool) {
 	return out, ok
 }
 
+// doAsync sends one op to an interactive handler and returns a function that waits for
+// its result (used to let a handler read race with frames the client sends meanwhile).
+func (r *rig) doAsync(h *hctl, o hop) func() (hres, bool) {
+	h.mu.Lock()
+	want := len(h.res) + 1
+	h.mu.Unlock()
+	sent := true
+	select {
+	case h.ops <- o:
+	case <-h.exited:
+		sent = false
+	case <-time.After(watchdog):
+		r.locked(func() { r.timedOut = true })
+		sent = false
+	}
+	return func() (hres, bool) {
+		if !sent {
+			return hres{}, false
+		}
+		var out hres
+		ok := r.waitForAlive(func() bool {
+			h.mu.Lock()
+			defer h.mu.Unlock()
+			if len(h.res) >= want {
+				out = h.res[want-1]
+				return true
+			}
+			return false
+		})
+		return out, ok
+	}
+}
+
 // waitForAlive is waitFor that does not give up when the connection's reader ended
 // (handler results can still arrive after the connection is gone).
 func (r *rig) waitForAlive(pred func() bool) bool {
